@@ -159,8 +159,8 @@ func Gen(o GenOpts) *rapid.Generator[Script] {
 			s.H = uint(rapid.IntRange(1, int(mh)+1).Draw(t, "hraw1"))
 		}
 		if s.Ver == 1 && !s.Simple {
-			s.OutCap = pick(t, "outcap", 0, 0, 1, 2, 4)
-			s.FbCap = pick(t, "fbcap", 0, 0, 1, 2, 4)
+			s.OutCap = pick(t, "outcap", 0, 0, 1, 2, 4, 16, 100)
+			s.FbCap = pick(t, "fbcap", 0, 0, 1, 2, 4, 16, 100)
 		}
 
 		// ops
@@ -204,7 +204,11 @@ func Gen(o GenOpts) *rapid.Generator[Script] {
 			return s
 		}
 
+		startEmpty := o.AddRemove && s.Ver == 1 && !s.Simple && rapid.IntRange(0, 7).Draw(t, "startempty") == 0
 		for _, p := range ps {
+			if startEmpty {
+				break // v1 may be created without inputs; they are added later
+			}
 			cp := pick(t, "cap", 0, 0, 1, 2, 8, 64)
 			pre := 0
 			if !o.Sparse || rapid.Bool().Draw(t, "pre?") {
